@@ -124,6 +124,11 @@ class Machine:
             if init == "tool-same" and sc.get("tool_hist"):
                 write_tool_file(self.conf, self.kpath, sc["parser"], sc.get("policy"), self.rn, sc["tool_hist"][0])
                 self.initial_is_tool_same = True
+            elif init == "tool-extra" and sc.get("tool_hist"):
+                # written by the tool for this program, then an entry for an option the tree does not (or no longer) define
+                write_tool_file(self.conf, self.kpath, sc["parser"], sc.get("policy"), self.rn, sc["tool_hist"][0])
+                with builtins.open(self.conf, "a") as f:
+                    f.write(sc.get("extra_lines") or "CONFIG_GONE_OPTION=y\n")
             elif init == "tool-deprecated" and sc.get("tool_hist") and self.rn:
                 write_tool_file(self.conf, self.kpath, sc["parser"], sc.get("policy"), self.rn, sc["tool_hist"][0], deprecated=True)
             elif init == "tool-old" and sc.get("prog_old"):
